@@ -10,6 +10,7 @@ THEOREMS = [
     "XcmModel.C04.C04_blocking_send_returns", "XcmModel.C04.C04_nonblocking_single_call",
     "XcmModel.C16.C16_readable_when_met", "XcmModel.C16.C16_active_fd_iff_bell",
     "XcmModel.C04btls.C04_btls_handshake_watched", "XcmModel.C04btls.C04_btls_waiter_has_source", "XcmModel.C04btls.C04_btls_terminal_rings", "XcmModel.C04btls.C04_btls_pending_rings", "XcmModel.C04btls.C04_btls_retained_output_watched",
+    "XcmModel.C04ux.C04_ux_each_condition_watched", "XcmModel.C04ux.C04_ux_server_watched",
     "XcmModel.C04tp.C04_registrations_refreshed", "XcmModel.C04tp.C04_new_sockets_registered",
 ]
 
@@ -122,6 +123,14 @@ def run(ctx):
     ctx.assumptions += ["K-epoll and K-progress: a socket reported writable accepts at least one byte; bytes in flight become readable",
                         "the injected faults are EAGAIN and short counts only (what a kernel may answer); resets are C06's subject",
                         "real-time bounds are measured (watchdog 4 s), not proved"]
+    # ux/uxf: what conn_event / server_event register for every awaited condition (exhaustive)
+    from gen import ux as _ux
+    uexe = _ux.build()
+    uops = ["N"] + ["U %d" % c for c in range(8)] + ["SU %d" % c for c in range(8)]
+    um, _ = ctx.differential("unit_ux", "ux", uexe, uops, label="ux-update-exhaustive")
+    for o2, l2 in zip(uops, um):
+        ctx.nontriv(("ux-update", o2, l2))
+    ctx.rule += " unit_ux: the registrations the real xcm_tp_ux.c makes for every awaited condition (conn and server), exhaustively, vs the Ux model."
     # the dispatch layer xcm_tp.c against the Lean Tp model
     from gen import tp as _tp
     texe = _tp.build()
@@ -155,6 +164,9 @@ def replay(path):
     if r.get("harness") == "unit_btls":
         from gen import btls as _btls
         return _btls.replay(r)
+    if r.get("harness") == "unit_ux":
+        from gen.props import C16
+        return C16.replay(path)
     if r.get("harness") == "sys_quiet":
         from gen.props.C16 import replay as r16
         return r16(path)
